@@ -26,7 +26,7 @@ LEVEL_NOTE = ('partial: non-negativity of bins is proved for the chained rule on
 TECHNIQUE = 'Lean 4 proof (induction over lists and over operation histories) about a hand model + per-step differential correspondence at ℚ'
 GEN = ['SpectrumOps']
 OPS = ['C15']
-RULE = ('streams: histories, integrate, bin (own/other/default unit, integer-dtype centres int16/32/64 up to the top of the range), unit (sample/resample across units), extremes (number scales, histories > 32 ops in search/thorough). histories of 5..12 (quick) / 5..30 (thorough) operations drawn from crop/trim/pad/append/resample with parameters relative to the '
+RULE = ('streams: histories, integrate, setvalue (sample/bin, assign `value`/`wave`, sample/bin again on the same object), bin (own/other/default unit, integer-dtype centres int16/32/64 up to the top of the range), unit (sample/resample across units), extremes (number scales, histories > 32 ops in search/thorough). histories of 5..12 (quick) / 5..30 (thorough) operations drawn from crop/trim/pad/append/resample with parameters relative to the '
         'current range (inside, at, and outside it; refusals included: non-increasing grids, overlapping appends, wrong lengths, '
         'non-positive pads, tol>=1) on dyadic spectra of 2..10 samples (one in five stored as int64); integrate with random bounds, linear/additive/exactness probes; '
         'bin with 2..7 centres (uniform and non-uniform), trapz/simps, symmetric/inside, preserve_power on/off, scalar and pair '
@@ -147,6 +147,13 @@ def generate(rng, tier):
         out.append({'kind': 'unit', 'wave': w, 'value': v, 'unit': u, 'req': 'nm' if r == 2 else UNITS[int(rng.integers(0, 4))], 'omit_unit': r == 2,
                     'fr': [FR[int(x)] for x in sorted(rng.choice(len(FR), int(rng.integers(1, 6)), replace=False))],
                     'fill': [0.0, 1.5, [0.5, 2.0]][int(rng.integers(0, 3))], 'vu': [None, 'wlam'][int(rng.integers(0, 2))]})
+    # the same object sampled / binned, given new values through the `value` setter (and new wavelengths through `wave`), and
+    # sampled / binned again: the second answers must be those of the new data
+    for i in range(max(n // 12, 10)):
+        w, v = _spec(rng, n=int(rng.integers(2, 9)))
+        out.append({'kind': 'setvalue', 'wave': w, 'value': v, 'value2': [dyadic(rng, 0, 16, 3) for _ in w], 'shift': [0.0, 0.5, 4.0][int(rng.integers(0, 3))],
+                    'fr': [FR[int(x)] for x in sorted(rng.choice(len(FR), int(rng.integers(2, 6)), replace=False))],
+                    'fill': [0.0, 1.5, [0.5, 2.0]][int(rng.integers(0, 3))], 'fill2': [0.0, 2.5][int(rng.integers(0, 2))], 'method': ['linear', 'linear', 'quadratic'][int(rng.integers(0, 3))]})
     # storage dtype: integer-valued spectra (0/1 bandpasses, counts) stored as int64
     for c in out:
         if c.get('linear') is None and '_corpus' not in c and rng.integers(0, 5) == 0:
@@ -160,6 +167,7 @@ def _vals(c):
 
 def signature(c):
     if c['kind'] == 'history': return 'history%s n=%d %s %s' % ('' if 'hscale' not in c else '*%g' % c['hscale'], len(c['wave']), ','.join(o['k'] for o in c['ops']), c['wave'][:2])
+    if c['kind'] == 'setvalue': return 'setvalue n=%d %s %s %s %s' % (len(c['wave']), c['fr'], c['shift'], c['method'], c['wave'][:2])
     if c['kind'] == 'unit': return 'unit %s>%s%s n=%d %s %s' % (c['unit'], c['req'], '*' if c['omit_unit'] else '', len(c['wave']), c['fr'], c['wave'][:2])
     if c['kind'] == 'integrate': return 'integrate n=%d %s %s %s' % (len(c['wave']), c['a'], c['b'], c['wave'][:2])
     return 'bin n=%d m=%d %s %s %s %s>%s%s %s' % (len(c['wave']), c['m'], c['simps'], c['ends'], c['pp'], c['unit'], c.get('req', c['unit']), (c.get('cen_dtype', 'i') + str(c.get('wscale', ''))) if c.get('cen_int') else '', c['wave'][:2])
@@ -273,6 +281,23 @@ def _impl(c):
                     st['returned'] = _state(ret)
                 steps.append(st)
             return {'steps': steps}
+        if k == 'setvalue':
+            w = np.array(c['wave']); lo, hi = float(w[0]), float(w[-1])
+            xs = np.array([lo + a * (hi - lo) for a in c['fr']])
+            cen = np.array(sorted({round((lo + a * (hi - lo)) * 64) / 64 for a in c['fr']}))
+            meth = c['method'] if len(w) >= 3 else 'linear'
+            s = R.Spectrum(w, _vals(c))
+            def look(fill):
+                o = {'sample': [float(x) for x in s.sample(xs, method=meth, fill_value=_pyfill(fill))]}
+                if len(cen) >= 2: o['bins'] = [float(x) for x in s.bin(cen, interp_method='trapz', preserve_power=False, fill_value=_pyfill(fill), sample_method=meth)]
+                return o
+            out = {'xs': [float(x) for x in xs], 'cen': [float(x) for x in cen], 'method': meth, 'first': look(c['fill'])}
+            s.value = np.array(c['value2'])                       # value setter
+            out['second'] = look(c['fill2'])                      # same grid, new values, another fill
+            if c['shift']:
+                s.wave = w + c['shift']                           # wave setter
+                out['third'] = look(c['fill2'])
+            return out
         if k == 'unit':
             w, v = np.array(c['wave']), _vals(c)
             scale = 2.0 ** -10 if c['unit'] != 'nm' else 1.0
@@ -391,6 +416,10 @@ def requests(c, io):
             if st.get('skipped'): continue
             out.append({'op': 'c15.step', 'wave': qs(st['before']['wave']), 'value': qs(st['before']['value']), 'opd': _op_req(st['p'])})
         return out
+    if k == 'setvalue':
+        if io['method'] != 'linear': return []
+        fl, fr = _fill(c['fill2'])
+        return [{'op': 'c15.sample', 'wave': qs(c['wave']), 'value': qs(c['value2']), 'xs': qs(io['xs']), 'fillL': q(fl), 'fillR': q(fr)}]
     if k == 'unit':
         fl, fr = _fill(c['fill'])
         return [{'op': 'c15.step', 'wave': qs(io['wave_req']), 'value': qs(io['val_req']), 'opd': {'k': 'resample', 'xs': qs(io['xs']), 'fillL': q(fl), 'fillR': q(fr)}}]
@@ -435,6 +464,12 @@ def compare(c, io, mo):
             st = dict(st, after=got)
             if not all_close(mw, st['after']['wave'], rel): return f"{what} {st['p']}: wave impl {st['after']['wave']} model {mw}"
             if not all_close(mv, st['after']['value'], rel, atol): return f"{what} {st['p']}: value impl {st['after']['value']} model {mv}"
+        return None
+    if k == 'setvalue':
+        if not mo: return None
+        m = mo[0]
+        if not m.get('ok'): return f'model: {m}'
+        if not all_close(_fl(m['v']), io['second']['sample'], 1e-11, 1e-11 * (1 + max(c['value2']))): return f"sample after `s.value = …`: impl {io['second']['sample']} model {_fl(m['v'])}"
         return None
     if k == 'unit':
         m = mo[0]
@@ -533,6 +568,28 @@ def oracle(c, io):
                     ref = np.interp(np.array(p['xs'], dtype=float), np.array(b['wave']), np.array(b['value']), left=fl, right=fr) if p['xs'] else []
                     if not all_close(a['value'], list(ref), 1e-11, 1e-300): return f"{what}: values {a['value']} are not the linear interpolant {list(ref)}"
                 elif pa != pb: return f'{what}: refused ({st["exc"]}) but changed the spectrum (wave {a["shapes"][0]}, value {a["shapes"][1]})'
+        return None
+    if k == 'setvalue':
+        import scipy.interpolate
+        def ref(wave, value, fill):
+            fl, fr = _fill(fill)
+            f = scipy.interpolate.interp1d(np.array(wave), np.array(value, dtype=float), kind=io['method'], bounds_error=False, fill_value=(fl, fr))
+            o = {'sample': [float(x) for x in f(np.array(io['xs']))]}
+            cen = io['cen']
+            if len(cen) >= 2:
+                mids = [c0 + (c1 - c0) / 2 for c0, c1 in zip(cen, cen[1:])]
+                e = np.array([cen[0] - (cen[1] - cen[0]) / 2] + mids + [cen[-1] + (cen[-1] - cen[-2]) / 2])
+                fe = f(e)
+                o['bins'] = [float(0.5 * (fe[j] + fe[j + 1]) * (e[j + 1] - e[j])) for j in range(len(e) - 1)]
+            return o
+        stages = [('first', c['wave'], c['value'], c['fill'], 'a fresh spectrum'), ('second', c['wave'], c['value2'], c['fill2'], 'the same object after `s.value = new values`')]
+        if 'third' in io: stages.append(('third', [x + c['shift'] for x in c['wave']], c['value2'], c['fill2'], 'the same object after `s.wave = shifted grid`'))
+        for key, wv, vv, fill, what in stages:
+            r = ref(wv, vv, fill)
+            at = 1e-10 * (1 + max(abs(x) for x in vv))
+            for q_ in ('sample', 'bins'):
+                if q_ in io[key] and not all_close(io[key][q_], r[q_], 1e-10, at):
+                    return f"{q_} ({io['method']}, fill {fill}) on {what}: {io[key][q_]}, the data now stored give {r[q_]}"
         return None
     if k == 'unit':
         what = f"spectrum in {c['unit']} ({c['vu']}), abscissae in {'<default nm>' if c['omit_unit'] else c['req']}"
